@@ -121,6 +121,17 @@ class VLoop(base_events.BaseEventLoop):
 
     SPIN_LIMIT = 500
 
+    def run_iteration(self) -> int:
+        """One loop iteration: only the handles that are ready right now (what they schedule waits for the next)."""
+        n = 0
+        for _ in range(len(self._ready)):
+            h = self._ready.popleft()
+            if not h._cancelled:
+                h._run()
+                n += 1
+        self.handles_run += n
+        return n
+
     def next_timer_us(self) -> Optional[int]:
         sched = self._scheduled
         while sched and sched[0]._cancelled:
@@ -614,7 +625,8 @@ class World:
         self.hosts.append(h)
         return h
 
-    def new_zeroconf(self, mode: str = "single", name: Optional[str] = None, asyncio_api: bool = True) -> Host:
+    def new_zeroconf(self, mode: str = "single", name: Optional[str] = None, asyncio_api: bool = True,
+                     settle: bool = True) -> Host:
         """Create a host running a real Zeroconf (wrapped in AsyncZeroconf) and let it start."""
         from zeroconf import Zeroconf
         from zeroconf.asyncio import AsyncZeroconf
@@ -629,8 +641,9 @@ class World:
         zc._notify_futures = OrderedSet()
         h.zc = zc
         h.azc = AsyncZeroconf(zc=zc) if asyncio_api else None
-        self.loop.run_ready()
-        assert zc.started, "instance did not start"
+        if settle:
+            self.loop.run_ready()
+            assert zc.started, "instance did not start"
         return h
 
     # -- time ----------------------------------------------------------------------------------
